@@ -103,11 +103,12 @@ CLAIMED['C18'] = {
 CLAIMED['C17'] = {
     'category': 'proof',
     'text': 'MerchantEngine._add_rule proved for all key-presence combinations (exactly one rule with exactly the stated properties appended in file order, or MerchantParseError '
-            'for a missing match, neither category nor tags, or an invalid let/field/match expression); information-flow and close-site clauses for parse() and parse_sections() '
-            'decided syntactically (raw line and line number flow only into errors and line_number; every section closed exactly once; views need a filter). '
+            'for a missing match, neither category nor tags, or an invalid let/field/match expression); parse_sections (views files) proved by a loop invariant over the lines '
+            'with uninterpreted line classifiers: one view per [header] in file order with its own name and line number, recorded only with a non-empty filter, property lines classified on their '
+            'stripped text, every rejection a SectionParseError naming the offending line; information-flow and close-site clauses for MerchantEngine.parse() decided syntactically (auxiliary). '
             'Whole-file layout / corruption / reporting sentences are exercised by the labelled bounded oracle. One recorded known finding (unloadable file read as empty).',
-    'level_note': _BASE_NOTE + ' The per-line regex classifiers are opaque (A6); the line-loop state machines of parse()/parse_sections() are covered by syntactic clauses and the bounded oracle, not by a loop invariant.',
-    'technique': 'contract-based deductive verification (_add_rule by symbolic execution + z3; syntactic information-flow clauses) + bounded metamorphic/corruption oracle',
+    'level_note': _BASE_NOTE + ' The per-line regex classifiers are opaque (A6); the line loop of MerchantEngine.parse() (its state is a dict with dynamic keys) is covered by syntactic clauses and the bounded oracle, not by a loop invariant.',
+    'technique': 'contract-based deductive verification (_add_rule and the parse_sections line loop by symbolic execution + z3; syntactic information-flow clauses for parse()) + bounded metamorphic/corruption oracle',
 }
 
 CLAIMED['C10'] = {
